@@ -2,8 +2,8 @@ package main
 
 import (
 	"bytes"
-	"crypto/sha1"
 	"context"
+	"crypto/sha1"
 	"fmt"
 	"os"
 	"os/exec"
